@@ -42,6 +42,7 @@ func FBP(reftree *tree.Tree, boottrees <-chan tree.Trees, cpus int, sup *Support
 	for cpu := 0; cpu < cpus; cpu++ {
 		wg.Add(1)
 		go func(cpu int) {
+			defer wg.Done()
 			var inerr error
 			for treeV := range boottrees {
 				edgeIndex := tree.NewEdgeIndex(uint64(len(edges)*2), 0.75)
@@ -79,7 +80,6 @@ func FBP(reftree *tree.Tree, boottrees <-chan tree.Trees, cpus int, sup *Support
 				}
 				sup.IncrementProgress()
 			}
-			wg.Done()
 		}(cpu)
 	}
 
